@@ -33,10 +33,12 @@ def run(c):
     c.cov["rule"] = ("replayed histories: one per distinct state of the bounded state graph, strict prefixes dropped; non-trivial = "
                      "history with >= 2 lookups or a report that is ingested; traces: same rule per recorded run")
     depth = 6 if thorough else 5
-    exps = (1, 3, 6) if thorough else (1, 3)
+    exps = (1, 3)
     issue_cfg = {"max_cache": 1}
     # ---- 1. exhaustive
     pc.mc_run(c, "C06", "mc_A", u="A", depth=depth, exp_choices=exps, report_set=(1,), horizon=9)
+    if thorough:
+        pc.mc_run(c, "C06", "mc_A_exp3", u="A", depth=5, exp_choices=(1, 3, 6), report_set=(1,), horizon=9)
     pc.mc_run(c, "C06", "mc_issue", u="A", cfg=issue_cfg, depth=depth + 1 if not thorough else depth + 2, exp_choices=(6,), report_set=(1, 2, 3), horizon=6, max_adv=2,
               invariants=["IssueMapBound", "IssueFifoBound", "CacheBound", "NoWorkerPanic", "ActiveInCache", "IrrelevantReportNoChange"])
     pc.mc_run(c, "C06", "oracle_expiry", u="A", depth=5, exp_choices=(1, 3), report_set=(), horizon=9, fix_expiry=False,
@@ -44,6 +46,13 @@ def run(c):
     pc.mc_run(c, "C06", "oracle_fifo", u="A", cfg=issue_cfg, depth=6, exp_choices=(6,), report_set=(1, 2, 3), horizon=6, max_adv=2,
               fix_fifo=False, expect=["IssueMapBound", "IssueFifoBound"], oracle=True,
               invariants=["IssueMapBound", "IssueFifoBound"])
+    # other orderings of the constants the config validator accepts (min delay <= interval, min delay <= threshold;
+    # backoff unconstrained): backoff far beyond interval and lifetimes / threshold > interval = min delay, flat backoff
+    variants = {"v2": dict(cfg={"threshold": 1, "min_delay": 1, "interval": 2, "idle": 3, "backoff_min": 2, "backoff_max": 6}, exp_choices=(1, 2, 4)),
+                "v3": dict(cfg={"threshold": 3, "min_delay": 2, "interval": 2, "idle": 4, "backoff_min": 1, "backoff_max": 1, "backoff_factor": 1.0},
+                           exp_choices=(2, 4, 6))}
+    for vn, v in variants.items():
+        pc.mc_run(c, "C06", "mc_" + vn, u="A", depth=depth - 1, report_set=(), horizon=9, **v)
     c.cov["exhaustive"] = True
     # ---- 2. generation -> replay
     nrep, steps, nontriv, outcomes, spec_outcomes = 0, 0, set(), {}, {}
@@ -53,6 +62,8 @@ def run(c):
         dict(name="gen_late0", depth=depth - 1, exp_choices=(1, 3), report_set=(), horizon=9, late=0),
         dict(name="gen_issue", cfg=issue_cfg, depth=depth + 1, exp_choices=(6,), report_set=(1, 2, 3), horizon=6, max_adv=2),
     ]
+    for vn, v in variants.items():
+        gens.append(dict(name="gen_" + vn, depth=depth - 1, report_set=(), horizon=9, **v))
     for g in gens:
         st = pc.gen_replay(c, "C06", binp, u="A", **g)
         nrep += st["replayed"]
@@ -87,4 +98,6 @@ def run(c):
         c.cov["distinct_nontrivial"] += st["nontrivial"]
         c.cov.setdefault("trace_stats", []).append({k: st[k] for k in ("runs", "events", "accepted_runs", "rejected", "nontrivial")})
     c.cov["traces_validated_against_impl"] = traces
+    # ---- 4. real MultiPathManager with its real worker task and the real clock, public API only (smoke run, margins >= 5 s)
+    c.cov["evaluations"] += pc.realtime_smoke(c, "C06", binp)
     c.sample({"trace_event": "tick/report/ingest/send/adv with the projected state after the step, see spec/PathManager/Trace_PathSet.tla"})
